@@ -253,6 +253,12 @@ func extractTermsAux(ctx *Context, x interface{}, terms StringSet, depth int) {
 			if strings.HasSuffix(k, "!") {
 				continue
 			}
+			// (In a pattern) a property variable can bind a
+			// property whose value isn't indexed: the value
+			// under it is no term that a matching fact must have.
+			if IsVariable(k) {
+				continue
+			}
 			extractTermsAux(ctx, v, terms, depth+1)
 		}
 	case []interface{}:
